@@ -843,7 +843,13 @@ class ExcelCompiler:
             self.log.debug(f"Evaluating: {cell_range.address}, {cell_range.python_code}")
             if cell_range.address.is_unbounded_range:
                 bounded_addr = str(self.eval(cell_range))
-                data = self._evaluate(bounded_addr)
+                try:
+                    data = self._evaluate(bounded_addr)
+                except Exception:
+                    if self.cycles:
+                        # the calc failed, so the cell is no longer in progress
+                        cell_range.wip = False
+                    raise
 
             elif cell_range.formula is None:
                 data = tuple(
